@@ -30,7 +30,8 @@ FUNCTIONS = [
     "ombott.request_pkg.request:BaseRequest.__init__", "ombott.request_pkg.request:BaseRequest._raise",
     "ombott.request_pkg.body_mixin:BodyMixin._body", "ombott.error_render:render",
 ]
-STUBS = ["PyBytesIO for io.BytesIO/TemporaryFile inside body_mixin"]
+STUBS = ["PyBytesIO for io.BytesIO/TemporaryFile inside body_mixin",
+         "the clock static_stream reads (Date of a 304) is fixed; static_file kinds read two real files made by the harness"]
 ASSUMPTIONS = ["every application of a query gets an errors_map with the default contents but objects of its own (the default map is shared process-wide)", "one worker thread; requests served strictly one after another; the server iterates and closes each response"]
 OUTSIDE = ["histories longer than 3", "request kinds outside the enumerated list", "symbolic text longer than 1-2 characters",
            "actual garbage-collector liveness (decided in inductive graph form instead)",
@@ -135,6 +136,83 @@ def build_app(state):
     return app
 
 
+def _make_files():
+    """two real files (fixed mtime) for the static_file kinds; the clock static_file reads for the Date of a 304 is fixed"""
+    import atexit
+    import os
+    import shutil
+    import tempfile
+    from ombott import static_stream
+    root = tempfile.mkdtemp(prefix="vf-c09-")
+    atexit.register(shutil.rmtree, root, True)
+    for name, data in (("page.txt", b"0123456789"), ("other.txt", b"abcdef")):
+        with open(os.path.join(root, name), "wb") as f:
+            f.write(data)
+        os.utime(os.path.join(root, name), (1500000000, 1500000000))
+
+    class FixedClock:
+        @staticmethod
+        def time():
+            return 1600000000.0
+    static_stream.time = FixedClock
+    return root
+
+
+FILE_ROOT = _make_files()
+FILE_KINDS = ["file", "file-304", "file-range", "file-head", "file2", "file2-304"]
+FILE_STATE = {}
+
+
+def _default_app_routes():
+    """static_file reads the request of the module-level default application, so the file kinds are served by it (there
+    is one per process: 'a fresh application' is this one before the history)"""
+    from ombott.ombott import Globals
+    app = Globals.app
+
+    @app.route("/c09/file")
+    def file_():
+        return ombott.static_file("page.txt", FILE_ROOT)
+
+    @app.route("/c09/file2")
+    def file2():
+        return ombott.static_file("other.txt", FILE_ROOT, download="o.txt")
+
+    @app.route("/c09/ok")
+    def ok():
+        if FILE_STATE.get("write"):
+            s, hv, ck = FILE_STATE["write"]
+            app.response.status = s
+            app.response.headers["X-Out"] = hv
+            if ck:
+                app.response.set_cookie("sid", ck)
+        return "ok:" + app.request.query_string
+    return app
+
+
+DEFAULT_APP = _default_app_routes()
+
+
+def make_file_pair(k1, k2):
+    def q(qs: str, hv: str, si: int, ci: int):
+        assume(len(qs) <= 1 and len(hv) <= 1)
+        for ch in qs + hv:
+            o = ord(ch)
+            assume(32 < o < 127 and o != 37)
+        assume(0 <= si < len(STATUS) and 0 <= ci < len(COOKIES))
+        FILE_STATE.clear()
+        ref = serve(DEFAULT_APP, env_of(k2, "z=9"))
+        FILE_STATE["write"] = (STATUS[si], hv, COOKIES[ci])
+        first = serve(DEFAULT_APP, env_of(k1, qs))
+        FILE_STATE.clear()
+        second = serve(DEFAULT_APP, env_of(k2, "z=9"))
+        if second != ref:
+            return "history [%s(q=%r, wrote %r), %s] on the default application: response %r, before the history %r" % (
+                k1, qs, (STATUS[si], hv, COOKIES[ci]), k2, second, ref)
+        cover(first[0][0][0][:3])
+        return None
+    return q
+
+
 def env_of(kind, qs="", accept=None):
     env = {"REQUEST_METHOD": "GET", "PATH_INFO": "/ok", "QUERY_STRING": qs, "SERVER_NAME": "h", "SERVER_PORT": "80",
            "wsgi.url_scheme": "http", "wsgi.errors": Err(), "SERVER_PROTOCOL": "HTTP/1.1"}
@@ -153,6 +231,16 @@ def env_of(kind, qs="", accept=None):
         env["PATH_INFO"] = "/" + kind
     elif kind in ("logout", "admin-logout"):
         env["PATH_INFO"] = "/" + kind.replace("-", "/") if kind != "logout" else "/logout"
+    elif kind == "dok":
+        env["PATH_INFO"] = "/c09/ok"
+    elif kind in FILE_KINDS:
+        env["PATH_INFO"] = "/c09/file2" if kind.startswith("file2") else "/c09/file"
+        if kind.endswith("-304"):
+            env["HTTP_IF_MODIFIED_SINCE"] = "Sun, 13 Sep 2020 12:26:40 GMT"     # after the files' mtime
+        elif kind == "file-range":
+            env["HTTP_RANGE"] = "bytes=2-5"
+        elif kind == "file-head":
+            env["REQUEST_METHOD"] = "HEAD"
     elif kind == "404":
         env["PATH_INFO"] = "/nope"
     elif kind == "405":
@@ -306,6 +394,16 @@ def queries(tier):
                              "value (<= 1 printable ASCII character each), status written from %r, cookie from %r, Accept json or "
                              "not; later request concrete" % (k1, k2, " (Accept: application/json)" if j2 else "", STATUS, COOKIES),
                              timeout=150 if not T else 400, per_path_timeout=40, family="pair"))
+    # static files (since seed C09-i): every ordered pair of the file kinds (plain, conditional -> 304, ranged, HEAD, another
+    # file as a download), and a file request before / after ordinary ones
+    fpairs = [(a, b) for a in FILE_KINDS for b in FILE_KINDS] + [(a, "dok") for a in FILE_KINDS] + [("dok", a) for a in FILE_KINDS]
+    for k1, k2 in fpairs:
+        out.append(Q("filepair/%s/%s" % (k1, k2), make_file_pair(k1, k2),
+                     "history [%s, %s] on the default application (static_file on real files with a fixed mtime, fixed clock; "
+                     "reference = the later request before the history): earlier request with symbolic query text and written "
+                     "header value (<= 1 printable ASCII character each), status written from %r, cookie from %r; later request "
+                     "concrete" % (k1, k2, STATUS, COOKIES),
+                     timeout=150 if not T else 400, per_path_timeout=40, family="filepair"))
     # the configuration dimension: the same effective settings reached through app.setup / two setup calls
     from vf import appconfigs
     out += appconfigs.variants(list(out), ["setup", "setup-twice"], lambda q: q.qid in ("pair/oversize/body", "pair/body6/body", "retain/body6", "pair/badchunk/ok", "pair/crash/ok", "pair/404/ok"))
